@@ -135,7 +135,8 @@ def run_unit(unit, tmpl, seed=0, rlimit=None, needs_ast=False, threads=4, extra_
     res = {'unit': unit, 'template': tmpl, 'functions': {}, 'failures': [], 'undecided': [], 'canaries': {},
            'extracted': [], 'verus_cmd': '', 'wall_s': 0.0, 'verified': 0, 'errors': 0, 'smt_ms': 0,
            'clauses': 0}
-    out_rs = os.path.join(BUILD, 'units', unit + '.rs')
+    out_rs = os.path.join(BUILD, 'units', unit + (f'_s{seed}' if seed else '') + '.rs')
+    res['out_rs'] = out_rs
     try:
         report = extract.generate(os.path.join(VERIF, tmpl), out_rs)
     except extract.Unsupported as e:
